@@ -7,6 +7,7 @@ import XzVerif.Model.ReadLoop
 import XzVerif.Model.Gxz
 import XzVerif.Model.GFlag
 import XzVerif.Model.Writer2
+import XzVerif.Model.Ring
 /-
   driver — line protocol around the executable definitions of Spec and Model.
   One request per line on stdin, one reply line on stdout.  Core-only, so it links.
@@ -130,6 +131,81 @@ partial def parseBlocks (toks : List String) (acc : Array Xz.BlockSpec) : Option
       parseBlocks rest' (acc.push { extraPad := ep, withCs := boolOf cs, withUs := boolOf us, dictCode := dc, chunks := cks.toArray })
     | _, _, _ => none
   | _ => none
+
+def b01 (b : Bool) : String := if b then "1" else "0"
+
+/-- one command of a ring script on a plain buffer -/
+def ringBufCmd (b : Ring.Buf) (cmd : String) : Ring.Buf × String :=
+  match cmd.splitOn ":" with
+  | ["w", h] => let (b', n, e) := b.write (unhex h); (b', s!"{n},{b01 e}")
+  | ["wb", c] => match c.toNat? with
+    | some c => match b.writeByte c.toUInt8 with
+      | some b' => (b', "ok")
+      | none => (b, "nospace")
+    | none => (b, "bad-op")
+  | ["r", n] => match n.toNat? with
+    | some n => let (b', p) := b.read n; (b', hex p)
+    | none => (b, "bad-op")
+  | ["pk", n] => match n.toNat? with
+    | some n => (b, hex (b.peek n))
+    | none => (b, "bad-op")
+  | ["d", n] => match n.toNat? with
+    | some n => let (b', k, e) := b.discard n; (b', s!"{k},{b01 e}")
+    | none => (b, "bad-op")
+  | ["ml", d, h] => match d.toNat? with
+    | some d => (b, toString (b.matchLen d (unhex h)))
+    | none => (b, "bad-op")
+  | ["st"] => (b, s!"{b.front},{b.rear},{b.buffered},{b.available}")
+  | _ => (b, "bad-op")
+
+def ringDDictCmd (d : Ring.DDict) (cmd : String) : Ring.DDict × String :=
+  match cmd.splitOn ":" with
+  | ["wb", c] => match c.toNat? with
+    | some c => match d.writeByte c.toUInt8 with
+      | some d' => (d', "ok")
+      | none => (d, "nospace")
+    | none => (d, "bad-op")
+  | ["wm", dist, len] => match dist.toNat?, len.toNat? with
+    | some dist, some len => match d.writeMatch dist len with
+      | .ok d' => (d', "ok")
+      | .distRange => (d, "dist")
+      | .lenRange => (d, "len")
+      | .noSpace => (d, "nospace")
+      | .panic => (d, "panic")
+    | _, _ => (d, "bad-op")
+  | ["w", h] => let (d', n, e) := d.write (unhex h); (d', s!"{n},{b01 e}")
+  | ["r", n] => match n.toNat? with
+    | some n => let (d', p) := d.read n; (d', hex p)
+    | none => (d, "bad-op")
+  | ["ba", dist] => match dist.toNat? with
+    | some dist => (d, toString (d.byteAt dist).toNat)
+    | none => (d, "bad-op")
+  | ["st"] => (d, s!"{d.head},{d.dictLen},{d.buf.available},{d.buf.buffered}")
+  | _ => (d, "bad-op")
+
+def ringEDictCmd (d : Ring.EDict) (cmd : String) : Ring.EDict × String :=
+  match cmd.splitOn ":" with
+  | ["w", h] => let (d', n, e) := d.write (unhex h); (d', s!"{n},{b01 e}")
+  | ["d", n] => match n.toNat? with
+    | some n => match d.discard n with
+      | some (d', p) => (d', hex p)
+      | none => (d, "panic")
+    | none => (d, "bad-op")
+  | ["ba", dist] => match dist.toNat? with
+    | some dist => (d, toString (d.byteAt dist).toNat)
+    | none => (d, "bad-op")
+  | ["cn", n] => match n.toNat? with
+    | some n => let (o, e) := d.copyN n; (d, s!"{hex o},{b01 e}")
+    | none => (d, "bad-op")
+  | ["ml", dist, n] => match dist.toNat?, n.toNat? with
+    | some dist, some n => (d, toString (d.buf.matchLen dist (d.buf.peek n)))
+    | _, _ => (d, "bad-op")
+  | ["st"] => (d, s!"{d.head},{d.len},{d.dictLen},{d.available},{d.buffered}")
+  | _ => (d, "bad-op")
+
+def runScript {α : Type} (f : α → String → α × String) : α → List String → List String
+  | _, [] => []
+  | a, c :: cs => let (a', o) := f a c; o :: runScript f a' cs
 
 def parseGoOp (s : String) : Option W2.GoOp :=
   let body := (s.drop 1).toString
@@ -255,6 +331,16 @@ def handle (line : String) : String :=
         ",".intercalate (w.chunks.toList.map (fun c => s!"{nameOfKind c.kind}:{c.raw.size}:{c.ops.size}")) ++
         s!" | left={w.m.length}"
     | _, _, _, _, _ => "bad-op"
+  -- ring buf <size> <cmd>... | ring ddict <cap> <cmd>... | ring edict <dictCap> <bufSize> <cmd>...
+  | "ring" :: "buf" :: sz :: cmds => match sz.toNat? with
+    | some sz => " ".intercalate (runScript ringBufCmd (Ring.Buf.new sz) cmds)
+    | none => "bad-op"
+  | "ring" :: "ddict" :: sz :: cmds => match sz.toNat? with
+    | some sz => " ".intercalate (runScript ringDDictCmd (Ring.DDict.new sz) cmds)
+    | none => "bad-op"
+  | "ring" :: "edict" :: dc :: bs :: cmds => match dc.toNat?, bs.toNat? with
+    | some dc, some bs => " ".intercalate (runScript ringEDictCmd (Ring.EDict.new dc bs) cmds)
+    | _, _ => "bad-op"
   | ["lzmaops", h] =>
     let r := Lzma1.read 0 (unhex h)
     " ".intercalate (r.ops.toList.map opStr)
